@@ -105,6 +105,13 @@ def functions_defined(text):
     return set(re.findall(r"^\s*(?:\[\[[^\]]*\]\]\s*)*[\w:<>,\s\*&]+?\b(\w+)\s*\([^;{]*\)\s*(?::\s*\w+\s*)?\{", text, re.M))
 
 
+def _program_tg(entry, kind, tg):
+    """the numthreads the generated program gives the stage (harness/src/c05.rs render)"""
+    if entry == "TASKMESH" and kind == "Mesh":
+        return (32, 1, 1)
+    return tg
+
+
 def check(case, impl):
     """None or a message."""
     w = case.split()
@@ -181,16 +188,17 @@ def check(case, impl):
                     kind, fname, size = st.split("/", 2)
                     if fname not in defined:
                         return "stage %s names entry point %r, which the source does not define (defined: %s)" % (kind, fname, sorted(defined)[:8])
-                    if is_main and kind == "Compute":
-                        m = re.search(r"\[numthreads\((\d+), (\d+), (\d+)\)\]\s*\n\s*void %s\(" % re.escape(fname), text)
+                    if is_main and kind in ("Compute", "Mesh", "Task"):
+                        # the numthreads attribute in front of the entry point (other attributes may stand between)
+                        m = re.search(r"\[numthreads\((\d+), (\d+), (\d+)\)\]\s*(?:\[[^\]]*\]\s*)*void %s\(" % re.escape(fname), text)
                         if not m:
                             return "entry point %s has no numthreads attribute in the source" % fname
                         got = tuple(int(x) for x in m.groups())
                         want = re.match(r"Some\(\((\d+), (\d+), (\d+)\)\)", size)
                         if not want or tuple(int(x) for x in want.groups()) != got:
-                            return "stage reports thread group size %s, the source says %s" % (size, got)
-                        if got != tg:
-                            return "thread group size %s does not match the program's %s" % (got, tg)
+                            return "stage %s reports thread group size %s, the source says %s" % (kind, size, got)
+                        if got != _program_tg(entry, kind, tg):
+                            return "thread group size %s of stage %s does not match the program's %s" % (got, kind, _program_tg(entry, kind, tg))
         else:
             members = parse_msl(text)
             for name, (g, idx, cnt, ty) in members.items():
@@ -214,4 +222,13 @@ def check(case, impl):
                     if nm in by_name:
                         if (i in reach) != by_name[nm]["used"]:
                             return "%s is %s by the entry point but reported is_used=%s" % (nm, "reached" if i in reach else "not reached", by_name[nm]["used"])
+            # Metal has no numthreads in the text: the reported size of every thread-group stage is the program's
+            if stages and is_main:
+                for st in re.split(r",(?=\w+/)", stages):
+                    kind, fname, size = st.split("/", 2)
+                    if kind in ("Compute", "Mesh", "Task"):
+                        want = _program_tg(entry, kind, tg)
+                        m = re.match(r"Some\(\((\d+), (\d+), (\d+)\)\)", size)
+                        if not m or tuple(int(x) for x in m.groups()) != want:
+                            return "stage %s reports thread group size %s, the program declares numthreads%s" % (kind, size, want)
     return None
